@@ -257,7 +257,7 @@ func c14edit(t *toks) (string, []string) {
 	}
 	if mt != "-" {
 		if !bytes.Equal(canonJSON(meta2), canonJSON(newMeta)) {
-			viol = append(viol, "the new metadata does not read back JSON-equal: "+trunc(string(meta2)))
+			viol = append(viol, fmt.Sprintf("the new metadata does not read back JSON-equal: %q", trunc(string(meta2))))
 		}
 	} else {
 		if !bytes.Equal(out[127:], a.Bytes[127:]) {
